@@ -702,6 +702,7 @@ class RequestHandler:
                 )
         if not hasattr(self, "_new_cookie"):
             self._new_cookie: http.cookies.SimpleCookie = http.cookies.SimpleCookie()
+        previous = self._new_cookie.get(name)
         if name in self._new_cookie:
             del self._new_cookie[name]
         self._new_cookie[name] = value
@@ -744,6 +745,9 @@ class RequestHandler:
             self._convert_header_value(morsel.OutputString(None))
         except ValueError:
             del self._new_cookie[name]
+            if previous is not None:
+                # A rejected call leaves an earlier setting in place.
+                self._new_cookie[name] = previous
             raise
 
     def clear_cookie(self, name: str, **kwargs: Any) -> None:
